@@ -691,6 +691,8 @@ type e2eResumeOutcome struct {
 	Sidecars   int      `json:"sidecars_after_kill"`
 	JoinTail   string   `json:"join_tail,omitempty"`
 	Trouble    string   `json:"trouble,omitempty"`
+	Stale      bool     `json:"file_changed_then_overwrite,omitempty"`
+	Damaged    bool     `json:"file_was_changed,omitempty"`
 }
 
 func countPt(evs []hookEv, pt string) int {
@@ -703,8 +705,8 @@ func countPt(evs []hookEv, pt string) int {
 	return n
 }
 
-func runE2EResume(idx int, srvURL, thruBin string, seed int64, w io.Writer) e2eResumeOutcome {
-	o := e2eResumeOutcome{Session: idx}
+func runE2EResume(idx int, srvURL, thruBin string, seed int64, w io.Writer, stale bool) e2eResumeOutcome {
+	o := e2eResumeOutcome{Session: idx, Stale: stale}
 	work, err := os.MkdirTemp("", "vh-e2er-")
 	if err != nil {
 		o.Trouble = err.Error()
@@ -725,6 +727,13 @@ func runE2EResume(idx int, srvURL, thruBin string, seed int64, w io.Writer) e2eR
 	kills := []string{"recv.chunk.marked@3", "recv.chunk.written@12", "recv.chunk.marked@30", "sidecar.flush.tmp@2", "recv.chunk.header@20", "recv.finalize@1"}
 	o.KillAt = kills[(int(seed)+idx)%len(kills)]
 	o.Choice = []string{"resume", "resume", "overwrite"}[(int(seed)/2+idx)%3]
+	if stale {
+		// the user changes the partly downloaded file after the interruption and then answers "overwrite":
+		// the old metadata must not be trusted for the new download
+		// (odd sessions: the first download is not interrupted at all - its metadata marks every chunk)
+		o.Choice = "overwrite"
+		o.KillAt = []string{"recv.chunk.marked@30", "", "recv.finalize@1", ""}[(int(seed)+idx)%4]
+	}
 	host, err := startChild(thruBin, []string{"host", src, "--server-url", srvURL, "--stun-server", "stun:127.0.0.1:9", "--total-connections", o.Conns, "--chunk-size", fmt.Sprint(chunk)},
 		filepath.Join(work, "host.trace"), nil, "")
 	if err != nil {
@@ -750,7 +759,11 @@ func runE2EResume(idx int, srvURL, thruBin string, seed int64, w io.Writer) e2eR
 		return o
 	}
 	joinArgs := []string{"join", code, "--out", outDir, "--server-url", srvURL, "--stun-server", "stun:127.0.0.1:9"}
-	j1, err := startChild(thruBin, joinArgs, filepath.Join(work, "join1.trace"), []string{"VERIF_HOOK_KILL=" + o.KillAt}, "y\n")
+	var killEnv []string
+	if o.KillAt != "" {
+		killEnv = []string{"VERIF_HOOK_KILL=" + o.KillAt}
+	}
+	j1, err := startChild(thruBin, joinArgs, filepath.Join(work, "join1.trace"), killEnv, "y\n")
 	if err != nil {
 		o.Trouble = err.Error()
 		return o
@@ -773,6 +786,20 @@ func runE2EResume(idx int, srvURL, thruBin string, seed int64, w io.Writer) e2eR
 	sc, _ := filepath.Glob(filepath.Join(outDir, ".thruflux_resumedata", "*.sbxmap"))
 	sc2, _ := filepath.Glob(filepath.Join(outDir, "share", ".thruflux_resumedata", "*.sbxmap"))
 	o.Sidecars = len(sc) + len(sc2)
+	if stale {
+		// damage bytes inside chunks 1..3 of every partly written file (never the highest recorded chunk alone)
+		filepath.Walk(outDir, func(p string, fi os.FileInfo, err error) error {
+			if err == nil && fi.Mode().IsRegular() && filepath.Base(p) == "big.bin" && fi.Size() > 4*chunk {
+				if f, err := os.OpenFile(p, os.O_RDWR, 0); err == nil {
+					junk := bytes.Repeat([]byte{0xEE}, 2*chunk)
+					f.WriteAt(junk, chunk+100)
+					f.Close()
+					o.Damaged = true
+				}
+			}
+			return nil
+		})
+	}
 	// the host learns that the receiver is gone, then the second join
 	time.Sleep(300 * time.Millisecond)
 	answers := "y\n"
@@ -829,6 +856,7 @@ func E2EResume(args []string) {
 	thru := fs.String("thru", "", "thru binary (built with -tags verif)")
 	seed := fs.Int64("seed", 1, "seed")
 	traceOut := fs.String("trace-out", "", "prefix of the combined trace file (the shard number is appended)")
+	stale := fs.Bool("stale", false, "C06: the partly downloaded file is changed after the interruption and the user answers 'overwrite'")
 	fs.Parse(args)
 	srv, err := startServer(*thruserv, nil, unlimited...)
 	if err != nil {
@@ -849,7 +877,7 @@ func E2EResume(args []string) {
 		if i%*shards != *shard {
 			continue
 		}
-		o := runE2EResume(i, srv.url, *thru, *seed, f)
+		o := runE2EResume(i, srv.url, *thru, *seed, f, *stale)
 		if o.Trouble != "" {
 			trouble++
 			fmt.Fprintln(os.Stderr, "trouble:", o.Trouble)
@@ -861,6 +889,9 @@ func E2EResume(args []string) {
 		}
 		ok := o.SecondDone && o.SecondExit == 0
 		switch {
+		case *stale && ok && !o.Equal:
+			res.AddViolation(map[string]any{"prop": "C06", "kind": "old_metadata_trusted_after_the_user_chose_overwrite"}, o)
+		case *stale:
 		case !ok:
 			res.AddViolation(map[string]any{"prop": "C04", "kind": "resumed_session_failed", "choice": o.Choice}, o)
 		case !o.Equal:
